@@ -264,6 +264,16 @@ def run_history(seed, res, env, steps):
                     fail("effective:forced_support", "%s.forced_support is %r, model %r" % (nm, g, eff(n, "forced_support")))
                     return
                 res.count("effective values compared")
+                if family == "kitty" and isinstance(n, type) and step % 2 == 0:
+                    # a consumer of the class-wide forced support: clear() is documented
+                    # to do nothing if the style is (effectively) not supported
+                    env.take()
+                    n.clear(now=True)
+                    acted = b"\x1b_Ga=d" in env.take()
+                    res.count("effect of forced support on clear() observed")
+                    if acted != bool(supported or eff_class(n, "forced_support")):
+                        fail("forced-support-effect", "%s.clear() %s although the style is %ssupported by the terminal and %s.forced_support is %r" % (nm, "sent a delete command" if acted else "did nothing", "" if supported else "not ", nm, eff_class(n, "forced_support")))
+                        return
                 if family == "iterm2":
                     for s in ("jpeg_quality", "read_from_file"):
                         g = getattr(n, s)
